@@ -69,6 +69,7 @@ package callbacks
 //@   ensures error-means-rollback: old(db.Error) != nil ==> commits == old(commits)
 //@   ensures success-means-commit: old(db.Error) == nil ==> rollbacks == old(rollbacks)
 //@   ensures skip-means-nothing: old(db.Config.SkipDefaultTransaction) ==> commits == old(commits) && rollbacks == old(rollbacks) [C19,C05]
+//@   ensures connection-kept-unless-an-implicit-transaction-was-finished: commits + rollbacks == old(commits) + old(rollbacks) ==> db.Statement.ConnPool == old(db.Statement.ConnPool) [C04,C05]
 
 //@ # ---------- C13: hooks ----------
 //@ ghost hookCalls pendingHookErr hooksRun
